@@ -582,6 +582,9 @@ func (d *c08Doc) sigs(li int) []c08Sig {
 			switch {
 			case nb >= 0 && nb != d.semi[l.line]:
 				out = append(out, c08Sig{c08ClsCommText, l.rs, cm.rs})
+			case nb > l.re && nb == d.semi[l.line]:
+				// blanks and a comment follow: the text token (and with it the amount) runs to the ';'
+				out = append(out, c08Sig{c08ClsCommText, l.rs, nb})
 			}
 		}
 	case c08KComm:
